@@ -880,7 +880,7 @@ def _decode(s, encoding="utf-8", errors="strict"):
     enc = encoding.lower().replace("_", "-")
     if enc in ("latin-1", "latin1", "iso-8859-1"):
         return lift(SStr(s.cps))
-    if enc not in ("utf-8", "utf8", "ascii") or errors != "strict":
+    if enc not in ("utf-8", "utf8", "ascii") or errors not in ("strict", "replace", "ignore") or (enc == "ascii" and errors != "strict"):
         raise Unsupported("decode(%s, %s)" % (encoding, errors))
     out = []
     b = s.cps
@@ -893,55 +893,66 @@ def _decode(s, encoding="utf-8", errors="strict"):
     def z(c):
         return zt(c)
 
-    def bad(pos, why):
-        raise UnicodeDecodeError("utf-8", bytes(x if isinstance(x, int) else 0 for x in b), pos, min(pos + 1, n), why)
+    class _Skip(Exception):
+        pass
+
+    def bad(pos, why, consumed=1):
+        # CPython replaces / ignores the maximal valid prefix of the ill-formed sequence (`consumed` bytes) and resumes after it
+        if errors == "strict":
+            raise UnicodeDecodeError("utf-8", bytes(x if isinstance(x, int) else 0 for x in b), pos, min(pos + consumed, n), why)
+        if errors == "replace":
+            out.append(0xFFFD)
+        raise _Skip(pos + consumed)
 
     while i < n:
-        c = b[i]
-        if inr(c, 0, 0x7F):
-            out.append(c)
-            i += 1
-            continue
-        if enc == "ascii":
-            raise UnicodeDecodeError("ascii", b"", i, i + 1, "ordinal not in range(128)")
-        if inr(c, 0xC2, 0xDF):
-            need, lo2, hi2, base = 1, 0x80, 0xBF, 0xC0
-        elif inr(c, 0xE0, 0xEF):
-            need, base = 2, 0xE0
-            if inr(c, 0xE0, 0xE0):
-                lo2, hi2 = 0xA0, 0xBF
-            elif inr(c, 0xED, 0xED):
-                lo2, hi2 = 0x80, 0x9F
+        try:
+            c = b[i]
+            if inr(c, 0, 0x7F):
+                out.append(c)
+                i += 1
+                continue
+            if enc == "ascii":
+                raise UnicodeDecodeError("ascii", b"", i, i + 1, "ordinal not in range(128)")
+            if inr(c, 0xC2, 0xDF):
+                need, lo2, hi2, base = 1, 0x80, 0xBF, 0xC0
+            elif inr(c, 0xE0, 0xEF):
+                need, base = 2, 0xE0
+                if inr(c, 0xE0, 0xE0):
+                    lo2, hi2 = 0xA0, 0xBF
+                elif inr(c, 0xED, 0xED):
+                    lo2, hi2 = 0x80, 0x9F
+                else:
+                    lo2, hi2 = 0x80, 0xBF
+            elif inr(c, 0xF0, 0xF4):
+                need, base = 3, 0xF0
+                if inr(c, 0xF0, 0xF0):
+                    lo2, hi2 = 0x90, 0xBF
+                elif inr(c, 0xF4, 0xF4):
+                    lo2, hi2 = 0x80, 0x8F
+                else:
+                    lo2, hi2 = 0x80, 0xBF
             else:
-                lo2, hi2 = 0x80, 0xBF
-        elif inr(c, 0xF0, 0xF4):
-            need, base = 3, 0xF0
-            if inr(c, 0xF0, 0xF0):
-                lo2, hi2 = 0x90, 0xBF
-            elif inr(c, 0xF4, 0xF4):
-                lo2, hi2 = 0x80, 0x8F
-            else:
-                lo2, hi2 = 0x80, 0xBF
-        else:
-            bad(i, "invalid start byte")
-        if i + 1 >= n:
-            bad(i, "unexpected end of data")
-        if not inr(b[i + 1], lo2, hi2):
-            bad(i, "invalid continuation byte")
-        for k in range(2, need + 1):
-            if i + k >= n:
+                bad(i, "invalid start byte")
+            if i + 1 >= n:
                 bad(i, "unexpected end of data")
-            if not inr(b[i + k], 0x80, 0xBF):
+            if not inr(b[i + 1], lo2, hi2):
                 bad(i, "invalid continuation byte")
-        val = z(c) - base
-        for k in range(1, need + 1):
-            val = val * 64 + (z(b[i + k]) - 0x80)
-        if isinstance(val, int):
-            out.append(val)
-        else:
-            val = z3.simplify(val)
-            out.append(val.as_long() if z3.is_int_value(val) else CP(val))
-        i += need + 1
+            for k in range(2, need + 1):
+                if i + k >= n:
+                    bad(i, "unexpected end of data", k)
+                if not inr(b[i + k], 0x80, 0xBF):
+                    bad(i, "invalid continuation byte", k)
+            val = z(c) - base
+            for k in range(1, need + 1):
+                val = val * 64 + (z(b[i + k]) - 0x80)
+            if isinstance(val, int):
+                out.append(val)
+            else:
+                val = z3.simplify(val)
+                out.append(val.as_long() if z3.is_int_value(val) else CP(val))
+            i += need + 1
+        except _Skip as sk:
+            i = sk.args[0]
     return lift(SStr(out))
 
 
